@@ -43,7 +43,7 @@ func isHybridPQ(g uint16) bool { return g == 0x11ec || g == 0x6399 }
 func TestC09(t *testing.T) {
 	r := mon.New("C09", "PRNG seeds x {default weights, sampled 0/1 corner vectors} x {Randomized, RandomizedALPN, RandomizedNoALPN}: two UTLSIdToSpec calls and two built connections per (seed, weights) give equal normalised fingerprints; 0/1 weights give absent/present features unless a TLS 1.3 rule forces them; consistency invariants checked on the parsed wire hello. distinct = normalised fingerprints")
 	defer r.Finish(t)
-	n := mon.Pick(4000, 200000)
+	n := mon.Pick(12000, 200000)
 	feature := map[string]int{}
 	for i := 0; i < n; i++ {
 		rg := Sub("C09", i)
